@@ -233,8 +233,8 @@ CHECKS = {
              "for any string lex back to exactly the original string and end at the printer's closing quotes (c06_short_string_roundtrip, "
              "c06_long_string_roundtrip, escape_preserves_newlines); table obligations t6_provn_productions, t6_provn_first_mandatory. The "
              "reader is executed on the real get_provn() text of every generated document and must recover the source's strict content; "
-             "the printer model is compared with the real text. Character level (Props/C06V, lexer as a step function lexBody + fuel): c06_value_lex / c06_value_parse (every attribute value's text is tokenised into its literal tokens and parsed into the value it denotes), c06_items_lex / c06_items_parse (attribute lists), c06_elem_lex / c06_elem_parse, c06_rel_lex / c06_rel_parse (relations: optional identifier, positional arguments with markers and times, attribute list) and the capstones c06_element / c06_relation: the text get_provn() prints for an entity, an agent or any relation lexes and parses, under the grammar, to that record with its identifier URI, its positional arguments and exactly its (attribute URI, value) pairs; hypotheses: names are words and resolve as meant, unescaped texts have nothing to escape, float texts are in the float table; concrete non-vacuity instance.",
-        note=A_COMMON + " Token-level theorem parse(print d) = abs d is not proved (covered by running the reader on real output). Known "
+             "the printer model is compared with the real text. Character level (Props/C06V, lexer as a step function lexBody + fuel): c06_value_lex / c06_value_parse (every attribute value's text is tokenised into its literal tokens and parsed into the value it denotes), c06_items_lex / c06_items_parse (attribute lists), c06_elem_lex / c06_elem_parse, c06_rel_lex / c06_rel_parse (relations: optional identifier, positional arguments with markers and times, attribute list) and the capstones c06_element / c06_relation: the text get_provn() prints for an entity, an agent or any relation lexes and parses, under the grammar, to that record with its identifier URI, its positional arguments and exactly its (attribute URI, value) pairs; hypotheses: names are words and resolve as meant, unescaped texts have nothing to escape, float texts are in the float table; concrete non-vacuity instance. Whole document (Props/C06W, C06L): c06_document / c06_provnDocument - the get_provn() text of a document (declarations, expressions, bundle blocks, line breaks and indentation) is tokenised (doc_lex) and parsed by parseDocument with the fuel the driver uses (lex_mono, lex_enough) into the records of the document and of each bundle under its identifier URI, in order, for every document whose records are readable in the scope its printed declarations make (RecReads, provided by C06V for all three expression kinds).",
+        note=A_COMMON + " The document theorem takes as hypothesis that each record is readable in its scope (names resolve as meant: C03 (c), values printable); that this holds of a given document is checked by running the reader on the real output. Known "
              "findings C06-1 (= C03-1) and C06-2 (identified/attributed alternateOf, specializationOf, mentionOf, hadMember have no "
              "production). Relations lacking a mandatory first argument are outside the domain (not expressible in PROV-N).",
         technique="Lean 4 induction proofs on the string-literal lexical layer + Lean grammar reader run on real output",
